@@ -87,7 +87,10 @@ def main(argv=None) -> int:
         extra["selftest"] = selftest
     explanation = getattr(mod, "EXPLANATION", "static rules over the AST / grammar / schema tables of the current tree")
     wall = time.time() - t0
-    ev = write_evidence(ctx, explanation, wall, len(violations), exhaustive=getattr(mod, "EXHAUSTIVE", False), extra=extra)
+    if os.environ.get("VSTAT_NO_EVIDENCE"):
+        ev = "(not written)"
+    else:
+        ev = write_evidence(ctx, explanation, wall, len(violations), exhaustive=getattr(mod, "EXHAUSTIVE", False), extra=extra)
     print(
         f"[{prop}] tier={args.tier} files={ctx.units.get('files_parsed')} functions={ctx.units.get('functions')} "
         f"obligations={ctx.obligations} discharged={ctx.discharged} cases={ctx.evaluations} "
@@ -100,7 +103,7 @@ def main(argv=None) -> int:
             print(f"CHECKER-WEAKNESS property={prop} variant={m}")
     if violations:
         for n, f in enumerate(violations, 1):
-            path = write_replay(prop, n, f)
+            path = write_replay(prop, n, f) if not os.environ.get("VSTAT_NO_EVIDENCE") else "-"
             where = f"{f.file}:{f.line}" if f.file else "-"
             print(f"  {f.rule} {where} {f.function or ''}: {f.what}")
             print(f"VIOLATION property={prop} replay={path}")
